@@ -15,7 +15,7 @@ props = a.props.split(",") if a.props else [c["property_id"] for c in man["check
 
 
 def run_one(d):
-    patch = os.path.join(d, "patch.diff")
+    patch = os.path.abspath(os.path.join(d, "patch.diff"))
     tmp = tempfile.mkdtemp(prefix="sa_var_", dir="/dev/shm")
     try:
         shutil.copytree("/repo/spec_classes", f"{tmp}/spec_classes", ignore=shutil.ignore_patterns("__pycache__"))
